@@ -2,7 +2,7 @@
 C18 — property theorems: the filer namespace stays a well-formed tree.
 
 All statements are about the executable model SwV/Model/C18.lean, which the correspondence
-check compares with the real Filer (leveldb2) after every operation. `Inv` (Lemmas/C18) is
+check compares with the real Filer (leveldb2) after every operation. `TreeInv` (Lemmas/C18) is
 the invariant: the store is a map, parent-closed, directories carry no link id, link records
 are files. `OpOk` is the client contract "directories are never given a hard-link id".
 -/
@@ -17,18 +17,18 @@ open SwV.Model.C18 SwV.Spec.C18 SwV.Lemmas.C18
 
 /-- MAIN: after any sequence of creates, updates, writes, links, unlinks, deletes (recursive or not, with or
     without data) and renames (also failing or diverging ones, which keep what they already did) the store is
-    a parent-closed map. By induction over the sequence; every building block of the model preserves `Inv`. -/
-theorem tree_inv (ops : List Op) (ok : ∀ op ∈ ops, OpOk op) : Inv (run {} ops) :=
+    a parent-closed map. By induction over the sequence; every building block of the model preserves `TreeInv`. -/
+theorem tree_inv (ops : List Op) (ok : ∀ op ∈ ops, OpOk op) : TreeInv (run {} ops) :=
   inv_run ops {} inv_empty ok
 
 example : ∃ ops : List Op, ops ≠ [] ∧ ∀ op ∈ ops, OpOk op :=
   ⟨[.rename ["a"] ["b"], .create ["a"] { isDir := true, tag := 1, chunks := [], hl := 0, cnt := 0 } false], by simp, by simp [OpOk]⟩
 
 /-- one step, from any state satisfying the invariant -/
-theorem tree_inv_step (s : St) (op : Op) (inv : Inv s) (ok : OpOk op) : Inv (step s op).1 := inv_step inv ok
+theorem tree_inv_step (s : St) (op : Op) (inv : TreeInv s) (ok : OpOk op) : TreeInv (step s op).1 := inv_step inv ok
 
 /-- the invariant implies the judge's predicate `wellFormed` (what the driver checks on the implementation's dump) -/
-theorem wellFormed_of_inv (s : St) (inv : Inv s) : wellFormed s.ents = true := by
+theorem wellFormed_of_inv (s : St) (inv : TreeInv s) : wellFormed s.ents = true := by
   unfold wellFormed
   rw [List.all_eq_true]
   intro x hx
@@ -52,7 +52,7 @@ theorem tree_ancestors (ops : List Op) (ok : ∀ op ∈ ops, OpOk op) :
   ancestors_of_inv (tree_inv ops ok)
 
 /-- a stored file has nothing below it -/
-theorem file_has_no_children (s : St) (inv : Inv s) (p : RPath) (e : Entry) (hp : (p, e) ∈ s.ents) (hf : e.isDir = false) :
+theorem file_has_no_children (s : St) (inv : TreeInv s) (p : RPath) (e : Entry) (hp : (p, e) ∈ s.ents) (hf : e.isDir = false) :
     ∀ x ∈ s.ents, x.1 ≠ [] → x.1.tail ≠ p := by
   intro x hx hne ht
   rcases (inv.parent x hx).2 with h | ⟨d, hd, hdir⟩
@@ -66,12 +66,12 @@ theorem file_has_no_children (s : St) (inv : Inv s) (p : RPath) (e : Entry) (hp 
 /-! ### no file ↔ directory flip -/
 
 /-- CreateEntry (plain create, overwrite, O_EXCL, with implicit parent creation) never changes the kind of a stored path -/
-theorem no_type_flip_create (s : St) (inv : Inv s) (p : RPath) (e : Entry) (x : Bool) (q : RPath) (a b : Entry)
+theorem no_type_flip_create (s : St) (inv : TreeInv s) (p : RPath) (e : Entry) (x : Bool) (q : RPath) (a b : Entry)
     (ha : (q, a) ∈ s.ents) (hb : (q, b) ∈ (createEntry s p e x).1.ents) : a.isDir = b.isDir :=
   createEntry_type_stable inv ha hb
 
 /-- UpdateEntry never changes the kind of a stored path -/
-theorem no_type_flip_update (s : St) (inv : Inv s) (p : RPath) (e : Entry) (q : RPath) (a b : Entry)
+theorem no_type_flip_update (s : St) (inv : TreeInv s) (p : RPath) (e : Entry) (q : RPath) (a b : Entry)
     (ha : (q, a) ∈ s.ents) (hb : (q, b) ∈ (updateEntry s p e).1.ents) : a.isDir = b.isDir :=
   updateEntry_type_stable inv ha hb
 
@@ -87,7 +87,7 @@ theorem create_other_kind_refused (s : St) (n : String) (par : RPath) (e old : E
     simp [this]
 
 /-- deletes only remove -/
-theorem delete_only_removes (s : St) (inv : Inv s) (p : RPath) (r dc : Bool) :
+theorem delete_only_removes (s : St) (inv : TreeInv s) (p : RPath) (r dc : Bool) :
     ∀ x ∈ (deleteEntry s p r dc).1.ents, x ∈ s.ents :=
   deleteEntry_subset inv
 
@@ -129,7 +129,7 @@ theorem rename_into_own_subtree_diverges_witness :
     (renameEntry witnessState ["a"] ["c", "a"]).2.1 = Res.diverge := by decide
 
 /-- when a file is on the way, a creation fails: a FILE is never moved below itself -/
-theorem ensureParent_below_file (e : Entry) (s : St) (inv : Inv s) (src : RPath) (f : Entry)
+theorem ensureParent_below_file (e : Entry) (s : St) (inv : TreeInv s) (src : RPath) (f : Entry)
     (hf : (src, f) ∈ s.ents) (hfile : f.isDir = false) :
     ∀ q : RPath, src <:+ q → ensureParent e q s = (s, false) := by
   intro q
@@ -163,7 +163,7 @@ theorem ensureParent_below_file (e : Entry) (s : St) (inv : Inv s) (src : RPath)
 
 /-- PARTIAL (hypothesis = the source is not a directory; directories are the known finding):
     renaming a file below itself is refused and changes nothing. -/
-theorem rename_into_own_subtree_refused_partial (s : St) (inv : Inv s) (src dst : RPath) (e : Entry)
+theorem rename_into_own_subtree_refused_partial (s : St) (inv : TreeInv s) (src dst : RPath) (e : Entry)
     (h : find s src = some e) (hfile : e.isDir = false) (hsub : src <:+ dst) (hne : src ≠ dst) :
     renameEntry s src dst = (s, .err, []) := by
   rcases find_stored inv h with ⟨f, hf, hk⟩
@@ -190,7 +190,7 @@ theorem rename_into_own_subtree_refused_partial (s : St) (inv : Inv s) (src dst 
     unfold createEntry
     simp only [hnone, ensureParent_below_file _ s inv src f hf hff par hpar]
 
-example : ∃ (s : St) (e : Entry), Inv s ∧ find s ["a"] = some e ∧ e.isDir = false :=
+example : ∃ (s : St) (e : Entry), TreeInv s ∧ find s ["a"] = some e ∧ e.isDir = false :=
   ⟨run {} [.create ["a"] { isDir := false, tag := 1, chunks := [1], hl := 0, cnt := 0 } false],
    { isDir := false, tag := 1, chunks := [1], hl := 0, cnt := 0 }, tree_inv _ (by simp [OpOk]), by decide, by decide⟩
 
